@@ -24,3 +24,6 @@ func PoolPut(name string) {}
 
 // Choice returns natural without the verif build tag.
 func Choice(name string, natural, allowed bool) bool { return natural }
+
+// Score returns score without the verif build tag.
+func Score(kind string, mode int, score uint64) uint64 { return score }
